@@ -90,6 +90,7 @@ class Tracker:
         self.flags = []        # symbolic failure flags (for counterexample printing)
         self.unknown = set()
         self.n = 0
+        self.nullargs = []     # (condition, description): a NULL object pointer handed to a C-API function that requires an object
 
     def arg(self, name):
         p, inv = self.env.make_opaque(name)
@@ -122,6 +123,20 @@ class Tracker:
             env.set_error(z3.And(g, z3.Not(ok)), ex.ptr_to(env.exc_type('PyExc_RuntimeError')))
         return Ptr(z3.If(ok, z3.BitVecVal(r.base, 64), z3.BitVecVal(0, 64)), [r.id, 0]) if may_fail else ex.ptr_to(r)
 
+    def check_args(self, ex_, g, name, a):
+        """the callee (first argument) and, for vectorcall-style helpers, every element of the argument array must be real objects"""
+        if a and isinstance(a[0], Ptr):
+            self.nullargs.append((z3.And(g, a[0].bv == 0), '%s called on NULL' % name))
+        if name in ('PyObject_GetAttr', '__Pyx_PyObject_GetAttrStr', 'PyObject_GetItem', 'PyNumber_Add') and len(a) > 1 and isinstance(a[1], Ptr):
+            self.nullargs.append((z3.And(g, a[1].bv == 0), '%s with a NULL operand' % name))
+        if 'FastCall' in name and len(a) >= 3 and isinstance(a[1], Ptr) and not isinstance(a[2], Ptr):
+            n = z3.simplify(a[2] & z3.BitVecVal((1 << 62) - 1, a[2].size()))
+            if z3.is_bv_value(n) and n.as_long() <= 4:
+                pt = ir.T('ptr', elem=ir.T('int', bits=8))
+                for i in range(n.as_long()):
+                    v = ex_.load(Ptr(a[1].bv + 8 * i, a[1].regions), pt, g, 'stub')
+                    self.nullargs.append((z3.And(g, v.bv == 0), '%s: argument %d is NULL' % (name, i)))
+
     def escape(self, g, p):
         """reference to the object(s) p may point to is given away (stolen by the callee) under guard g"""
         for o in self.objs:
@@ -135,6 +150,7 @@ class Tracker:
         def newref(name):
             def stub(ex_, g, a, rt, caller):
                 env.event(g, name, a)
+                tr.check_args(ex_, g, name, a)
                 return tr.new_object(g, name)
             return stub
         for nm in NEWREF:
@@ -154,6 +170,7 @@ class Tracker:
 
         def intfail(name, vals):
             def stub(ex_, g, a, rt, caller):
+                tr.check_args(ex_, g, name, a)
                 tr.n += 1
                 r = z3.BitVec('ret_%s_%d' % (name, tr.n), rt.bits)
                 tr.flags.append(r)
@@ -178,7 +195,9 @@ class Tracker:
                     ok = z3.Bool('ok_%s_%d' % (name, tr.n))
                     tr.flags.append(ok)
                 for i in idxs:
-                    p = tr.new_object(z3.And(g, ok), '%s.out%d' % (name, i), may_fail=(i != idxs[0]), fail_sets_error=False)   # value / traceback may be NULL
+                    # which slots may come back NULL: GetException: only the traceback; ErrFetch: value and traceback; ExceptionSave/Swap: all
+                    nullable = (i == idxs[2]) if 'GetException' in name else (i != idxs[0]) if 'Fetch' in name else True
+                    p = tr.new_object(z3.And(g, ok), '%s.out%d' % (name, i), may_fail=nullable, fail_sets_error=False)
                     ex_.store(a[i], p, ptr_t, z3.And(g, ok), 'stub')
                 if 'Fetch' in name:
                     env.set_error(g, symex.NULLPTR)
@@ -356,6 +375,15 @@ def check_kernel(fn):
     out.append(dict(name='%s: reach: a successful return' % fn, s=s5, mandatory=True, status={'sat': 'witness', 'unsat': 'vacuous'}.get(r5, 'inconclusive')))
     r6, _, s6 = solve.check(pre + [rg, ret.bv == 0], T())
     out.append(dict(name='%s: reach: an error return' % fn, s=s6, mandatory=True, status={'sat': 'witness', 'unsat': 'vacuous'}.get(r6, 'inconclusive')))
+    if tr.nullargs or any('NULL' in desc for c, desc, f_ in ex.ub):
+        conds = [c for c, _ in tr.nullargs] + [c for c, desc, f_ in ex.ub if 'NULL' in desc and f_ != 'stub']
+        r7, m7, s7 = solve.check(pre + [z3.Or(*conds)], T())
+        d7 = dict(name='%s: no NULL (unbound) object reaches the C-API or is dereferenced (%d sites)' % (fn, len(conds)), s=s7, mandatory=True,
+                  status={'unsat': 'proved', 'sat': 'refuted'}.get(r7, 'inconclusive'))
+        if r7 == 'sat':
+            which = [d_ for c, d_ in tr.nullargs if z3.is_true(m7.eval(c, model_completion=True))][:3]
+            d7['cex'] = dict(cexf(m7), null_sites=which)
+        out.append(d7)
     if unknown:
         out.append(dict(name='%s: external functions without an ownership contract: %s' % (fn, ', '.join(unknown)[:300]), s=0.0, mandatory=True, status='inconclusive'))
     return out
